@@ -21,7 +21,7 @@ Feature switches (names listed in ``avoid`` are switched off):
   branch_persist     name first assigned in a branch in one pass and read in a later pass
   list_alias         b = a for lists
   list_local         list first assigned inside the main loop / a helper
-  helper_mixed_sig   helper called with different argument types at different sites
+  helper_mixed_sig   (retired: mixed signatures are generated through gen_poly_helper, whose bodies are valid for ints and floats)
   try_except         try/except blocks
   range_bound_mutation  for-range bound that mentions names the loop body assigns
   tuple_new_mixed    tuple assignment that introduces a new name next to an existing one
@@ -484,8 +484,6 @@ class ProgGen:
         h = self.rng.choice(cands)
         args = []
         for _pname, ptype in h.params:
-            if self.feature("helper_mixed_sig", 0.15) and ptype in ("int", "float"):
-                ptype = "float" if ptype == "int" else "int"
             args.append(self.expr(env, ptype, depth + 2, no_call=True))
         return f"{h.name}({', '.join(args)})"
 
@@ -686,12 +684,21 @@ class ProgGen:
                 val = repr(float(r.randint(50, 99)) + 0.5)
             else:
                 val = repr("zz" + str(r.randint(0, 9)))
+            how = r.random()
+            same_typed = sorted(k for k, t in env.items() if t == elem and k not in self.no_comp_var)
+            if how < 0.25 and self.list_len.get(name, 0) > 0:
+                # an element of the list itself: the argument refers into the buffer that append/remove re-allocate
+                val = f"{name}[{r.choice([0, -1, self.list_len[name] - 1])}]"
+            elif how < 0.45 and same_typed:
+                val = r.choice(same_typed)
             self.emit(depth, f"{name}.append({val})")
             self.mutated_lists.add(name)
             if depth > 0 or self.in_main or self.in_helper:
                 self.nested_mutated.add(name)
             if kind == "append_remove":
                 self.emit(depth, f"mon.write({name}[-1])" if "mon" in env else "pass")
+                if val.startswith(name + "["):
+                    val = f"{name}[-1]"  # the value just appended (removes its first occurrence)
                 self.emit(depth, f"{name}.remove({val})")
             # guaranteed length never shrinks below the recorded minimum: we only remove what we appended
             self.probe(depth, env, [name])
@@ -1048,10 +1055,23 @@ class ProgGen:
             # from a small pool so that different helpers reuse it with different types
             local = r.choice(["out", "res", "val", "acc"])
             if local not in body_env and local not in genv:
-                self.emit(1, f"if {self.bool_expr(body_env, 1, no_call=True)}:")
-                self.emit(2, f"{local} = {self.expr(body_env, ret, 1, no_call=True)}")
-                self.emit(1, "else:")
-                self.emit(2, f"{local} = {self.expr(body_env, ret, 1, no_call=True)}")
+                if self.chance(0.6):
+                    self.emit(1, f"if {self.bool_expr(body_env, 1, no_call=True)}:")
+                    self.emit(2, f"{local} = {self.expr(body_env, ret, 1, no_call=True)}")
+                    self.emit(1, "else:")
+                    self.emit(2, f"{local} = {self.expr(body_env, ret, 1, no_call=True)}")
+                else:
+                    # first assigned inside a loop that always runs: hoisted out of the loop by the transpiler
+                    k = self.fresh("k")
+                    loop_kind = r.choice(["while", "for"])
+                    if loop_kind == "while":
+                        self.emit(1, f"{k} = 0")
+                        self.emit(1, f"while {k} < {r.choice([1, 2, 3])}:")
+                        self.emit(2, f"{local} = {self.expr(body_env, ret, 1, no_call=True)}")
+                        self.emit(2, f"{k} += 1")
+                    else:
+                        self.emit(1, f"for {k} in range({r.choice([1, 2, 3])}):")
+                        self.emit(2, f"{local} = {self.expr(body_env, ret, 1, no_call=True)}")
                 self.emit(1, f"return {local}")
                 self.in_helper = False
                 self.budget = saved_budget
@@ -1081,6 +1101,138 @@ class ProgGen:
         self.frozen_len = saved_frozen
         self.helpers.append(Helper(name, params, ret, pure))
         _ = protected
+
+    # ---- helpers whose calls appear only in places other than an assignment ------------------------
+    def gen_context_helper(self, env, in_loop_env=None) -> List[Tuple[int, str]]:
+        """A pure helper with a non-int parameter whose *only* calls sit in a condition, an argument, an f-string
+        field or a list literal; returns the (depth, line) statements that use it."""
+
+        r = self.rng
+        name = self.fresh("q")
+        kind = r.choice(["float", "float", "str", "bool", "mixed"])
+        if kind == "float":
+            a, b = self.fresh("a"), self.fresh("a")
+            self.emit(0, f"def {name}({a}, {b}):")
+            self.emit(1, f"return {a} * {b} + {r.choice(['0.25', '1', '0.5'])}")
+            args, ret = f"{r.randint(1, 4)}, {r.choice(['0.5', '1.25', '2.75'])}", "float"
+        elif kind == "str":
+            a = self.fresh("a")
+            self.emit(0, f"def {name}({a}):")
+            self.emit(1, f'return {a} + "{r.choice(["!", "_x", "k"])}"')
+            args, ret = f'"{r.choice(["ab", "q", "hello"])}"', "str"
+        elif kind == "bool":
+            a, b = self.fresh("a"), self.fresh("a")
+            self.emit(0, f"def {name}({a}, {b}):")
+            self.emit(1, f"if {a}:")
+            self.emit(2, f"return {b} + 0.5")
+            self.emit(1, f"return {b}")
+            args, ret = f"{r.choice(['True', 'False'])}, {r.choice(['1.5', '2.25'])}", "float"
+        else:
+            a, b, c = self.fresh("a"), self.fresh("a"), self.fresh("a")
+            self.emit(0, f"def {name}({a}, {b}, {c}):")
+            self.emit(1, f"if {c}:")
+            self.emit(2, f"return {a} + {b}")
+            self.emit(1, f"return {a} - {b}")
+            args, ret = f"{r.randint(0, 5)}, {r.choice(['0.5', '3.75'])}, {r.choice(['True', 'False'])}", "float"
+        call = f"{name}({args})"
+        lit = '"ab!"' if ret == "str" else r.choice(["1.0", "2", "0.75"])
+        cmp = f"{call} == {lit}" if ret == "str" else f"{call} {r.choice(['>', '<', '>=', '<='])} {lit}"
+        how = r.choice(["if", "if", "while", "write", "fstring", "sleep", "listlit", "ternary", "elif", "and"])
+        k = self.fresh("k")
+        if how == "if":
+            return [(0, f"if {cmp}:"), (1, 'mon.write("c-yes")'), (0, "else:"), (1, 'mon.write("c-no")')]
+        if how == "elif":
+            return [(0, "if False:"), (1, 'mon.write("c-never")'), (0, f"elif {cmp}:"), (1, 'mon.write("c-yes")'), (0, "else:"), (1, 'mon.write("c-no")')]
+        if how == "and":
+            return [(0, f"if True and {cmp}:"), (1, 'mon.write("c-yes")'), (0, "else:"), (1, 'mon.write("c-no")')]
+        if how == "while":
+            return [(0, f"{k} = 0"), (0, f"while {k} < 2 and {cmp}:"), (1, f"{k} += 1"), (0, f"mon.write({k})")]
+        if how == "write":
+            return [(0, f"mon.write({call})")]
+        if how == "fstring":
+            return [(0, f'mon.write(f"v={{{call}}};")')]
+        if how == "sleep" and ret != "str":
+            return [(0, f"sleep({call})"), (0, 'mon.write("slept")')]
+        if how == "listlit" and ret != "str":
+            return [(0, f"{k}s = [{call}, {call}]"), (0, f"mon.write({k}s[0])"), (0, f"mon.write({k}s[1])")]
+        if how == "ternary":
+            return [(0, f'mon.write("c-yes" if {cmp} else "c-no")')]
+        return [(0, f"if {cmp}:"), (1, 'mon.write("c-yes")')]
+
+    def gen_poly_helper(self, env) -> List[Tuple[int, str]]:
+        """A helper whose body is meaningful for ints and floats alike, called with several argument-type
+        signatures (one C++ variant each) from assignments, arguments, conditions and other helpers."""
+
+        r = self.rng
+        name = self.fresh("poly")
+        a, b = self.fresh("a"), self.fresh("a")
+        form = r.choice(["dbl", "add", "maxof", "scale_if", "neg"])
+        if form == "dbl":
+            params, body = [a], [f"return {a} * 2"]
+        elif form == "add":
+            params, body = [a, b], [f"return {a} + {b}"]
+        elif form == "maxof":
+            params, body = [a, b], [f"if {a} > {b}:", f"    return {a}", f"return {b}"]
+        elif form == "scale_if":
+            params, body = [a, b], [f"if {b} > 1:", f"    return {a} * {b}", f"return {a}"]
+        else:
+            params, body = [a], [f"return 0 - {a}"]
+        self.emit(0, f"def {name}({', '.join(params)}):")
+        for line in body:
+            self.emit(1, line)
+        ints = ["2", "0", "7", "-3"] + sorted(k for k, t in env.items() if t == "int")[:2]
+        floats = ["1.5", "0.25", "-2.5", "(1.5 * 2.0)"] + sorted(k for k, t in env.items() if t == "float")[:2]
+        out: List[Tuple[int, str]] = []
+        for _ in range(r.randint(2, 5)):
+            args = ", ".join(r.choice(ints if r.random() < 0.5 else floats) for _p in params)
+            call = f"{name}({args})"
+            how = r.choice(["assign", "assign", "write", "fstring", "cond", "nested"])
+            if how == "assign":
+                v = self.fresh("z")
+                out += [(0, f"{v} = {call}"), (0, f"mon.write({v})")]
+            elif how == "write":
+                out.append((0, f"mon.write({call})"))
+            elif how == "fstring":
+                out.append((0, f'mon.write(f"p={{{call}}};")'))
+            elif how == "cond":
+                out += [(0, f"if {call} > 1:"), (1, 'mon.write("p-yes")'), (0, "else:"), (1, 'mon.write("p-no")')]
+            else:
+                inner = f"{name}({', '.join(r.choice(ints if r.random() < 0.5 else floats) for _p in params)})"
+                args2 = ", ".join([inner] + [r.choice(ints) for _p in params[1:]])
+                out.append((0, f"mon.write({name}({args2}))"))
+        return out
+
+    def gen_recursive_helper(self, env) -> List[Tuple[int, str]]:
+        """A self-recursive helper (result kept in a local or used inline), called for depths 0..4."""
+
+        r = self.rng
+        name = self.fresh("rec")
+        ret = r.choice(["float", "float", "int", "str"] if self.opts.use_floats and self.opts.use_strings else ["int"])
+        base = {"float": r.choice(["0.0", "0.25", "1.5"]), "int": str(r.randint(0, 3)), "str": '"b"'}[ret]
+        step = {"float": r.choice(["0.5", "1.25"]), "int": str(r.randint(1, 4)), "str": '"s"'}[ret]
+        n = self.fresh("a")
+        two = self.chance(0.3) and ret != "str"
+        params = f"{n}, {self.fresh('a')}" if two else n
+        acc = params.split(", ")[1] if two else None
+        self.emit(0, f"def {name}({params}):")
+        self.emit(1, f"if {n} <= 0:")
+        self.emit(2, f"return {base}" if not two else f"return {acc} + {base}")
+        inner = f"{name}({n} - 1)" if not two else f"{name}({n} - 1, {acc} + {step})"
+        if self.chance(0.6):
+            local = r.choice(["out", "res", "val", "acc", self.fresh("t")])
+            if local in env:
+                local = self.fresh("t")
+            self.emit(1, f"{local} = {inner}")
+            self.emit(1, f"return {local} + {step}")
+        else:
+            self.emit(1, f"return {inner} + {step}" if (ret == "str" or self.chance(0.7)) else f"return {step} + {inner}")
+        out = []
+        for d in sorted(set(r.choice([0, 1, 2, 3, 4]) for _ in range(r.randint(1, 3)))):
+            args = str(d) if not two else f"{d}, {base}"
+            out.append((0, f"mon.write({name}({args}))") if self.chance(0.5) else (0, f"{self.fresh('z')} = {name}({args})"))
+            if out[-1][1].split(" = ")[0] != out[-1][1]:
+                out.append((0, f"mon.write({out[-1][1].split(' = ')[0]})"))
+        return out
 
     def stmt_list_straight(self, depth: int, env) -> None:
         """Straight-line top-level list bookkeeping: the transpiler's tracked length must stay exact."""
@@ -1182,6 +1334,15 @@ class ProgGen:
                 self.gen_helper(env)
             if self.chance(0.35):
                 self.gen_stepper(env)
+        deferred: List[Tuple[int, str]] = []
+        deferred_loop: List[Tuple[int, str]] = []
+        if o.use_helpers and o.use_floats and o.use_strings:
+            if self.chance(0.3):
+                (deferred if self.chance(0.7) else deferred_loop).extend(self.gen_context_helper(env))
+            if self.chance(0.25):
+                deferred.extend(self.gen_recursive_helper(env))
+            if self.chance(0.3):
+                (deferred if self.chance(0.7) else deferred_loop).extend(self.gen_poly_helper(env))
         # every helper is called at least once (an uncalled helper keeps default-typed parameters)
         for h in self.helpers:
             args = [self.expr(env, t, 2, no_call=True) for _n, t in h.params]
@@ -1193,11 +1354,18 @@ class ProgGen:
                 self.emit(0, f"{name} = {call}")
                 env[name] = h.ret
                 self.probe(0, env, [name])
+        for d, line in deferred:
+            self.emit(d, line)
         setup_count = r.randint(1, max(2, o.max_stmts // 3))
         ctx = {"in_loop": False}
         self.block(0, env, ctx, setup_count)
+        if not o.main_loop:
+            for d, line in deferred_loop:
+                self.emit(d, line)
         if o.main_loop:
             self.emit(0, "while True:")
+            for d, line in deferred_loop:
+                self.emit(d + 1, line)
             loop_env = dict(env)
             # inside the main loop `break` is illegal at loop level; nested loops may break
             self.in_main = True
